@@ -120,10 +120,15 @@ def _twin(case):
     return out, new, 1.0
 
 
-def _measure(ctx, tree, t, label):
+def _measure(ctx, tree, t, label, extents_first=False):
     from swcgeom.analysis import extract_feature, get_volume
     from swcgeom.analysis.lmeasure import LMeasure
 
+    if extents_first:
+        # a measuring session that starts with the neuron's extents (width / height / depth): whatever is asked first,
+        # the later answers are those of the same neuron
+        lm0 = LMeasure()
+        ctx.lib(f"{label}/extents", lambda: (lm0.width(tree), lm0.height(tree), lm0.depth(tree)))
     fe = extract_feature(tree)
     out = {}
     for name in LEN_FEATURES + RATIO_FEATURES + COUNT_FEATURES:
@@ -173,8 +178,11 @@ def run_case(case, ctx):
         ctx.cls("finely-traced")
     ctx.nontrivial(n >= 5 and nfurc >= 1 and moved)
 
-    A = _measure(ctx, tree_a, t, "original")
-    B = _measure(ctx, tree_b, twin, "twin")
+    extents_first = case["steps"] % 3 == 0
+    if extents_first:
+        ctx.cls("extents-asked-first")
+    A = _measure(ctx, tree_a, t, "original", extents_first)
+    B = _measure(ctx, tree_b, twin, "twin", extents_first)
     if kind == "scale" and case["steps"] % 2 == 0:
         # the library's own Scale applied to the tree that has just been measured: the derived tree's lengths are its
         # own (s times the original's), whatever was computed on the original before
@@ -264,6 +272,22 @@ def run_case(case, ctx):
         else:
             ctx.ambiguous("sholl:grid-length-differs-by-rounding")
             ctx.check(abs(len(ga) - len(gb)) <= 1, f"{kind}/sholl-by-steps/grid-length", f"{len(ga)} vs {len(gb)}")
+        if kind == "rigid" and case["theta"] == 0.0:
+            # a pure translation of a lattice neuron survives the four decimals of an SWC file exactly: the profile of the
+            # neuron given as a file name is that of the tree object, wherever the neuron lies
+            import os
+
+            ctx.cls("sholl-from-a-file-name")
+            prof = {}
+            for lab, tr in (("original", tree_a), ("twin", tree_b)):
+                path = os.path.join(ctx.tmpdir, f"sholl-{lab}.swc")
+                tr.to_swc(path)
+                sp = ctx.lib(f"{lab}/Sholl(path)", Sholl, path)
+                prof[lab] = np.asarray(ctx.lib(f"{lab}/Sholl(path).get", sp.get, k))
+            ctx.check(np.array_equal(prof["original"], np.asarray(sha.get(k))), "rigid/sholl-from-a-file-name/equals-the-tree-object's",
+                      lambda: f"{prof['original'].tolist()} vs {np.asarray(sha.get(k)).tolist()}; {info()}")
+            ctx.check(np.array_equal(prof["original"], prof["twin"]), "rigid/sholl-from-a-file-name/unchanged-by-translation",
+                      lambda: f"{prof['original'].tolist()} vs {prof['twin'].tolist()}; {info()}")
 
 
 # ----------------------------------------------------------------------------- volume at the default (Monte-Carlo) level
@@ -412,7 +436,8 @@ def run_volume_mc(case, ctx):
 SUBCHECKS = [
     Sub("invariance", case_strategy, run_case, quick=3000, thorough=40000, shards_quick=8,
         required={"kind:rigid": 150, "kind:renumber": 80, "kind:scale": 80, "furcation": 300, "translated-far-away": 60,
-                  "finely-traced": 100, "scaled-by-the-library-after-measuring": 40}),
-    Sub("volume_mc", volume_mc_strategy, run_volume_mc, quick=48, thorough=640, shards_quick=8,
+                  "finely-traced": 100, "scaled-by-the-library-after-measuring": 40, "extents-asked-first": 300,
+                  "sholl-from-a-file-name": 60}),
+    Sub("volume_mc", volume_mc_strategy, run_volume_mc, quick=40, thorough=640, shards_quick=8,
         required={"siblings-reordered": 8, "daughter-cones-overlap>1%": 8, "family:axis-parallel": 4, "family:oblique": 8}),
 ]
